@@ -4,6 +4,7 @@ package c20
 
 import (
 	"fmt"
+	"os"
 	"testing"
 
 	"github.com/iotaledger/iota.go/trinary"
@@ -15,7 +16,13 @@ import (
 	"verifharness/ref/trit"
 )
 
+// childHook is set by the hook-dependent file: runs a job in a re-executed child process.
+var childHook func(spec string)
+
 func TestMain(m *testing.M) {
+	if spec := os.Getenv("VERIF_C20_CHILD"); spec != "" && childHook != nil {
+		childHook(spec) // never returns
+	}
 	if err := trit.SelfCheck(); err != nil {
 		panic(err)
 	}
